@@ -149,3 +149,15 @@ CASES += [
     dict(id='c04-eq-null-test-first', prop='C04', file=TA, expect=None,
          old="      if ((it.currentNum() > 0) && !mIgnoreCardinality\n          && (mpCardinality.get() != nullptr))", new="      if (mpCardinality && (it.currentNum() > 0) && !mIgnoreCardinality)"),
 ]
+
+CASES += [
+    dict(id='c05-keyparse-independent-dashes', prop='C05', file=K, expect='R6',
+         old="      const int  ignore_leading_dashes = (arg_spec[ 0] != StartChar) ? 0\n         : 1 + static_cast< int>( arg_spec[ 1] == StartChar);",
+         new="      const int  ignore_leading_dashes =\n         static_cast< int>( arg_spec[ 0] == StartChar)\n         + static_cast< int>( arg_spec[ 1] == StartChar);"),
+    dict(id='c05-keyparse-one-dash-only', prop='C05', file=K, expect='R6',
+         old="      const int  ignore_leading_dashes = (arg_spec[ 0] != StartChar) ? 0\n         : 1 + static_cast< int>( arg_spec[ 1] == StartChar);",
+         new="      const int  ignore_leading_dashes = (arg_spec[ 0] != StartChar) ? 0 : 1;"),
+    dict(id='c05-eq-keyparse-if-form', prop='C05', file=K, expect=None,
+         old="      const int  ignore_leading_dashes = (arg_spec[ 0] != StartChar) ? 0\n         : 1 + static_cast< int>( arg_spec[ 1] == StartChar);",
+         new="      int  ignore_leading_dashes = 0;\n      if (arg_spec[ 0] == StartChar)\n      {\n         ignore_leading_dashes = 1;\n         if (arg_spec[ 1] == StartChar)\n            ignore_leading_dashes = 2;\n      } // end if"),
+]
